@@ -45,6 +45,21 @@ def special_docs():
                 "".join("PASTE @m%d\n" % i for i in range(6)) + 'GET /x\n  200 any\n'))
     res.append(("type_macros", 'JSIGHT 0.3\n' + "".join('MACRO @m%d\n(\n  TYPE @t%d any\n  SERVER @s%d\n    BaseUrl "u"\n)\n' % (i, i, i) for i in range(5)) +
                 "".join("PASTE @m%d\n" % i for i in range(5))))
+    # two faults that belong to different final checks of the catalog (info, request body, response body, headers),
+    # far apart in a large project: the diagnostic must be the same one on every run
+    faults = {
+        "info": "INFO\n",
+        "req": 'POST /fq\n  Request\n    Headers\n    {\n      "h": "v"\n    }\n  200 any\n',
+        "resp": 'GET /fr\n  201\n    Headers\n    {\n      "h": "v"\n    }\n',
+        "hdr": 'TYPE @sc\n1\nGET /fh\n  200 any\n    Headers\n      @sc\n',
+    }
+    filler = "".join('GET /m%d\n  Query\n  {\n    "q": 1\n  }\n  200\n  {\n    "id": %d\n  }\n  404 any\n' % (i, i) for i in range(300))
+    small = "".join("GET /s%d\n  200 any\n" % i for i in range(3))
+    for a in faults:
+        for b in faults:
+            if a != b:
+                res.append(("final_checks_%s_%s" % (a, b), "JSIGHT 0.3\n" + faults[a] + filler + faults[b]))
+                res.append(("final_checks_small_%s_%s" % (a, b), "JSIGHT 0.3\n" + faults[a] + small + faults[b]))
     res.append(("or_types", 'JSIGHT 0.3\nTYPE @a\n{\n  "x": @b | @c | @d\n}\nTYPE @b\n1\nTYPE @c\n"s"\nTYPE @d\ntrue\nGET /x\n  200 @a\n'))
     return res
 
